@@ -152,6 +152,8 @@ impl Heap {
     /// # Arguments
     /// `ast` - The structure to allocate recursively on the heap.
     pub fn put_cell(&mut self, ast: &cell::Cell) -> VCell {
+        #[cfg(marwood_verif)]
+        let _verif_depth = crate::vm::verif::depth::enter("put", "put_cell");
         let vcell = self.maybe_put_cell(ast);
         if vcell.is_ptr() {
             vcell
@@ -172,6 +174,8 @@ impl Heap {
     /// # Arguments
     /// `ast` - The structure to allocate recursively on the heap.
     pub fn maybe_put_cell(&mut self, ast: &cell::Cell) -> VCell {
+        #[cfg(marwood_verif)]
+        let _verif_depth = crate::vm::verif::depth::enter("put", "maybe_put_cell");
         match *ast {
             cell::Cell::Undefined => VCell::Undefined,
             cell::Cell::Void => VCell::Void,
@@ -265,6 +269,8 @@ impl Heap {
     /// # Arguments
     /// `vcell` - The vcell to map to a cell
     pub fn get_as_cell(&self, vcell: &VCell) -> Cell {
+        #[cfg(marwood_verif)]
+        let _verif_depth = crate::vm::verif::depth::enter("get", "get_as_cell");
         match vcell {
             VCell::Bool(val) => Cell::Bool(*val),
             VCell::Char(val) => Cell::Char(*val),
@@ -334,6 +340,8 @@ impl Heap {
     /// # Arguments
     /// `root` - The root vcell to mark
     pub fn mark(&mut self, root: usize) {
+        #[cfg(marwood_verif)]
+        let _verif_depth = crate::vm::verif::depth::enter("mark", "mark");
         let mut ptr = root;
         loop {
             let vcell = match self.heap.get(ptr) {
@@ -406,6 +414,8 @@ impl Heap {
     }
 
     pub fn mark_vcell(&mut self, vcell: &VCell) {
+        #[cfg(marwood_verif)]
+        let _verif_depth = crate::vm::verif::depth::enter("mark", "mark_vcell");
         match vcell {
             VCell::InstructionPointer(lambda, _) => {
                 self.mark(*lambda);
@@ -460,6 +470,8 @@ impl Heap {
     ///
     /// Iterate the saved VM state in the continuation
     pub fn mark_continuation(&mut self, cont: &Continuation) {
+        #[cfg(marwood_verif)]
+        let _verif_depth = crate::vm::verif::depth::enter("mark", "mark_continuation");
         for it in cont.stack().iter() {
             self.mark_vcell(it);
         }
@@ -471,6 +483,8 @@ impl Heap {
     ///
     /// Iterate the lambda byte code and mark any value that contains a reference type
     pub fn mark_lambda(&mut self, lambda: &Lambda) {
+        #[cfg(marwood_verif)]
+        let _verif_depth = crate::vm::verif::depth::enter("mark", "mark_lambda");
         // Mark every bytecode cell, except the operand of JMP/JNT: it is a
         // bytecode offset stored as VCell::Ptr, not a heap reference.
         let mut jump_operand = false;
